@@ -41,7 +41,7 @@ Fixpoint chk_member (n : nat) (t : stree) (mp : bool) (h : hist) (it : item) {st
   | 0 => None
   | S n' =>
       match it with
-      | IGene g None =>
+      | IGene g _ =>
           match h with
           | XG g' p => if String.eqb g g' then Some (Some p) else None
           | XH _ [[c]] => chk_member n' t mp c it
@@ -51,7 +51,7 @@ Fixpoint chk_member (n : nat) (t : stree) (mp : bool) (h : hist) (it : item) {st
           match h with
           | XG g p =>
               match body with
-              | [IProp k nm; IGene g' None] =>
+              | [IProp k nm; IGene g' _] =>
                   if String.eqb k "TaxRange" && String.eqb g g' &&
                      (match name_of t p with Some n0 => String.eqb n0 nm | None => false end)
                   then Some (Some p) else None
